@@ -33,8 +33,9 @@ type simDev struct {
 	nextCreated int64
 	registered  bool
 	zeroKey     bool
-	formerAddr  *uint32 // the address before the operator re-addressed the device
-	formerKey   []byte  // the AppKey before the operator replaced it
+	snapshot    *model.Device // the row as an operator's tool read it some events ago
+	formerAddr  *uint32       // the address before the operator re-addressed the device
+	formerKey   []byte        // the AppKey before the operator replaced it
 }
 
 type histProfile struct {
@@ -49,6 +50,7 @@ type histProfile struct {
 	maxSubmit                                  int  // largest queued payload (0: up to 230, beyond some data rates' limit)
 	noRestart                                  bool // one server for the whole history
 	sameTs                                     bool // receptions with identical receive time (the inbox key): the later one is refused by the store
+	staleWrites                                int  // 1 in n events: a row read earlier is written back (C05: the nonce record must survive it)
 	wUpdate                                    int  // 1 in n events is preceded by an operator's change of the device (new address, or new AppKey) through the storage layer
 }
 
@@ -68,19 +70,20 @@ func genEUI(rng *rand.Rand) uint64 {
 }
 
 type histRunner struct {
-	w         *World
-	rng       *rand.Rand
-	devs      []*simDev
-	apps      []protocol.EUI
-	events    []string
-	obs       []string
-	ts        int64
-	gws       []uint64
-	tags      map[string]int
-	badDatr   bool
-	sameTs    bool
-	hung      bool
-	lastValid map[int][]byte
+	w          *World
+	rng        *rand.Rand
+	devs       []*simDev
+	apps       []protocol.EUI
+	events     []string
+	obs        []string
+	ts         int64
+	gws        []uint64
+	tags       map[string]int
+	badDatr    bool
+	badDatrNow bool // for this frame only (a device with nothing queued: the answer is an empty frame, no payload limit is looked up)
+	sameTs     bool
+	hung       bool
+	lastValid  map[int][]byte
 }
 
 func (h *histRunner) dumpAll() string {
@@ -106,7 +109,7 @@ func (h *histRunner) rx(raw []byte, tag string) {
 	}
 	gw := h.gws[h.rng.Intn(len(h.gws))]
 	datr := datrs[h.rng.Intn(len(datrs))]
-	if h.badDatr && h.rng.Intn(25) == 0 && !(len(raw) > 0 && raw[0]>>5 == 0) {
+	if (h.badDatr || h.badDatrNow) && h.rng.Intn(25) == 0 && !(len(raw) > 0 && raw[0]>>5 == 0) {
 		// an unknown data-rate string (never on a join-request: with payload left in the buffer the accept
 		// cannot be built and the join is honoured silently - outside the quantifiers, see DESIGN 10.5)
 		datr = "SF6BW999"
@@ -490,6 +493,31 @@ func runHistory(rng *rand.Rand, prof histProfile, w *Writer, suite string) {
 		if prof.wUpdate > 0 && rng.Intn(prof.wUpdate) == 0 {
 			h.updateDevice(d)
 		}
+		h.badDatrNow = prof.name == "C09" && d.nextCreated == 0
+		if prof.staleWrites > 0 && d.registered && rng.Intn(prof.staleWrites) == 0 {
+			// an operator's tool that read the row some events ago writes it back now (storage layer): the row returns to
+			// what was read - and nothing else changes, in particular not the record of DevNonces already honoured
+			if d.snapshot == nil {
+				if cur, err := h.w.store.GetDeviceByEUI(d.eui); err == nil {
+					d.snapshot = &cur
+				}
+			} else {
+				sn := *d.snapshot
+				d.snapshot = nil
+				err := h.w.store.UpdateDevice(sn)
+				h.events = append(h.events, fmt.Sprintf("UF,%x:%x:%s:%s:%s:%x:%d:%d:%d:%d,%d", uint64(sn.DeviceEUI.ToInt64()), sn.DevAddr.ToUint32(),
+					keyHex(sn.AppKey), keyHex(sn.NwkSKey), keyHex(sn.AppSKey), uint64(sn.AppEUI.ToInt64()), sn.FCntUp, sn.FCntDn, b01(sn.RelaxedCounter), int(sn.State), b01(sn.KeyWarning)))
+				h.obs = append(h.obs, fmt.Sprintf("U%d %s", b01(err == nil), h.dumpAll()))
+				h.tags["update.stale-write-back"]++
+				// the harness's own picture of the device follows the row (keys, address), so that what it sends next is
+				// meaningful traffic for the row as it now is
+				d.appkey = append([]byte{}, sn.AppKey.Key[:]...)
+				d.nwk = append([]byte{}, sn.NwkSKey.Key[:]...)
+				d.app = append([]byte{}, sn.AppSKey.Key[:]...)
+				d.addr = sn.DevAddr.ToUint32()
+				d.formerKey, d.formerAddr = nil, nil
+			}
+		}
 		if d.formerAddr != nil && rng.Intn(4) == 0 {
 			// a frame to the address the device had before, authentic under its keys: no device has that address now
 			f := refUplink(d.nwk, d.app, []byte{2, 4}[rng.Intn(2)], *d.formerAddr, d.fcnt, 0, nil, 1+rng.Intn(200), randBytes(rng, rng.Intn(12)))
@@ -637,7 +665,15 @@ func runHistory(rng *rand.Rand, prof histProfile, w *Writer, suite string) {
 				continue
 			}
 			if f, ok := h.lastValid[di]; ok {
-				h.rx(f, "uplink.replay")
+				if rng.Intn(3) == 0 && len(f) > 13 {
+					// a copy of a frame that was delivered before, altered between header and MIC (same address, counter
+					// and MIC octets): it is authentic for nobody, whatever was accepted earlier
+					g := append([]byte{}, f...)
+					g[8+rng.Intn(len(g)-12)] ^= byte(1 + rng.Intn(255))
+					h.rx(g, "replay.altered")
+				} else {
+					h.rx(f, "uplink.replay")
+				}
 			} else {
 				h.rx(randBytes(rng, 12+rng.Intn(20)), "uplink.random")
 			}
@@ -663,6 +699,10 @@ func runHistory(rng *rand.Rand, prof histProfile, w *Writer, suite string) {
 				g := append(append([]byte{}, f[:19]...), 0)
 				f = append(g, refCMAC(d.appkey, g)[:4]...)
 				tag = "join.24-bytes"
+			case 5: // octets inserted between the 19 signed octets and the MIC of a genuine request
+				g := append(append([]byte{}, f[:19]...), randBytes(rng, 1+rng.Intn(8))...)
+				f = append(g, f[19:23]...)
+				tag = "join.lengthened"
 			case 4: // RFU bits of the MHDR altered: the MIC covers the MHDR as received
 				f = append([]byte{}, f...)
 				f[0] |= byte(1+rng.Intn(7)) << 2
@@ -697,7 +737,7 @@ var profiles = map[string]histProfile{
 	"C02": {badDatr: true, name: "C02", wUplink: 10, wCorrupt: 0, wJoin: 1, wSubmit: 1, wReplay: 0, maxDevs: 3, minEv: 8, maxEv: 20, shareAddr: 8},
 	"C03": {wUpdate: 20, badDatr: true, name: "C03", wUplink: 8, wCorrupt: 1, wJoin: 1, wSubmit: 2, wReplay: 5, maxDevs: 2, minEv: 10, maxEv: 30, shareAddr: 0},
 	"C04": {wUpdate: 12, badDatr: true, name: "C04", wUplink: 3, wCorrupt: 0, wJoin: 8, wSubmit: 0, wReplay: 0, maxDevs: 3, minEv: 6, maxEv: 16, shareAddr: 0},
-	"C05": {wUpdate: 30, badDatr: true, name: "C05", wUplink: 3, wCorrupt: 0, wJoin: 8, wSubmit: 1, wReplay: 1, maxDevs: 3, minEv: 8, maxEv: 20, shareAddr: 0, nonceOff: 3},
+	"C05": {staleWrites: 12, wUpdate: 30, badDatr: true, name: "C05", wUplink: 3, wCorrupt: 0, wJoin: 8, wSubmit: 1, wReplay: 1, maxDevs: 3, minEv: 8, maxEv: 20, shareAddr: 0, nonceOff: 3},
 	"C06": {maxSubmit: 59, name: "C06", wUplink: 8, wCorrupt: 2, wJoin: 1, wSubmit: 6, wReplay: 1, maxDevs: 4, minEv: 10, maxEv: 30, shareAddr: 6},
 	"C07": {wUpdate: 20, badDatr: true, name: "C07", wUplink: 8, wCorrupt: 1, wJoin: 2, wSubmit: 3, wReplay: 1, maxDevs: 2, minEv: 10, maxEv: 30, confirmedOnly: true},
 	"C08": {maxSubmit: 59, name: "C08", wUplink: 9, wCorrupt: 1, wJoin: 0, wSubmit: 5, wReplay: 1, maxDevs: 3, minEv: 12, maxEv: 30},
@@ -744,6 +784,9 @@ func init() {
 	// (whatever the entry's other keys say) is run on the real forwarder as well
 	h01, g01 := suites["C01"], suites["gwC01"]
 	suites["C01"] = func(rng *rand.Rand, tier string, w *Writer) { h01(rng, tier, w); g01(rng, tier, w) }
+	// C02: every frame a gateway reports must be storable - frames of one device in one datagram get different receive times
+	h02, g02 := suites["C02"], suites["gwC02"]
+	suites["C02"] = func(rng *rand.Rand, tier string, w *Writer) { h02(rng, tier, w); g02(rng, tier, w) }
 	// C17: the gateway side (gw.go) and, for the delay clause, the pipeline handing a join-accept to whichever handler reads the buffer
 	gw17 := suites["C17"]
 	ss17 := schedSuite("schedC17", schedKinds["C17"], 9, 200)
